@@ -63,7 +63,7 @@ CHECKS = {
  'C01': dict(
    text='AbstractGrader.__call__ (error mapping, key stripping, attempt credit, debug append, message formatting) modelled on top of the item/list combinators; proved: shape (single form for one input; list form with exactly one entry per checked entry), '
         'debug non-interference (with debug off the result does not depend on the log), range [0,1] and ok = f(grade) for ItemGrader.check / process_grade_list / consolidate_grades given a leaf contract, attempt scaling keeps ranges and recomputes ok (C17 theorems); '
-        'grader TREES are a structurally recursive model (ITree/LTree: table leaves, SingleListGraders, ordered/unordered/grouped/nested ListGraders) and the range + ok-consistency claim is proved by induction over every tree and carried through the whole call (item_tree_good, list_tree_good, call_good, with the built-in schedules discharged by C17), the shape claim (one entry per input, none missing, at every nesting level: list_tree_one_entry_per_input - its former hypothesis 'one answer per group' is now enforced by the code, fix F11, and proved from the success of the check); IntervalGrader.check_response / grade_bracket are modelled on top of the SingleListGrader machinery (interval_result_good, interval_bracket_rules, interval_refusals) and tied by correspondence with the real IntervalGrader over a table-driven subgrader; '
+        'grader TREES are a structurally recursive model (ITree/LTree: table leaves, SingleListGraders, ordered/unordered/grouped/nested ListGraders) and the range + ok-consistency claim is proved by induction over every tree and carried through the whole call (item_tree_good, list_tree_good, call_good, with the built-in schedules discharged by C17), the shape claim (one entry per input, none missing, at every nesting level: list_tree_one_entry_per_input - its former hypothesis "one answer per group" is now enforced by the code, fix F11, and proved from the success of the check); IntervalGrader.check_response / grade_bracket are modelled on top of the SingleListGrader machinery (interval_result_good, interval_bracket_rules, interval_refusals) and tied by correspondence with the real IntervalGrader over a table-driven subgrader; '
         'only library errors escape with debug off. Tie: whole calls of generated grader trees (table leaves with scripted exceptions, SingleList, List ordered/unordered/grouped, attempt credit, debug, garbage inputs) vs the model; '
         'the C01 predicate is evaluated on every returned value; contract monitor on real String/Formula/Numerical/Matrix/Interval/Sum/List graders.',
    note=PROOF_NOTE + ' Partial: Formula/Numerical/Matrix/Interval/Sum leaves are parameters with the contract LeafWF (grade in [0,1], ok consistent), which is monitored on the real graders, not proved; float rounding inside those leaves is outside the model. '
